@@ -1068,7 +1068,7 @@ pub fn generate_map() -> GenResult {
     };
     let mut s = header("std/map.glu");
     s.push_str(&p_ind(&ind));
-    s.push_str(&format!("\nSection Ord.\nVariable ty_{o} : Type.\nVariable compare : ty_{o} -> ty_{o} -> comparison.\n\n", o = coq_ident(&ord)));
+    s.push_str(&format!("\nSection Ord.\nContext {{ty_{o} : Type}}.\nVariable compare : ty_{o} -> ty_{o} -> comparison.\n\n", o = coq_ident(&ord)));
     for f in &funs {
         s.push_str(&p_fun(f, ITEM, &tr.ord_var)?);
         s.push('\n');
@@ -1175,7 +1175,7 @@ pub fn generate_list() -> GenResult {
     }
     let mut s = header("std/list.glu (+ fixity of (<>) from std/semigroup.glu)");
     s.push_str("Inductive fuelled (A : Type) : Type :=\n  | Done (_ : A)\n  | OutOfFuel.\nArguments Done {A}.\nArguments OutOfFuel {A}.\n");
-    s.push_str(&format!("\nSection Ord.\nVariable ty_{o} : Type.\nVariable compare : ty_{o} -> ty_{o} -> comparison.\n\n", o = coq_ident(&ord)));
+    s.push_str(&format!("\nSection Ord.\nContext {{ty_{o} : Type}}.\nVariable compare : ty_{o} -> ty_{o} -> comparison.\n\n", o = coq_ident(&ord)));
     for f in &funs {
         s.push_str(&p_fun(f, ITEM, &tr.ord_var)?);
         s.push('\n');
